@@ -107,6 +107,13 @@ def run(spec, tier, prop, mg, max_paths=400, max_seconds=120.0, timeout_ms=10000
             e2 = dict(env)
             e2.update(_assume_helpers(engine))
             exec(spec["assume"], e2)
+        if spec.get("pre_grads"):
+            # every leaf already holds a gradient from an earlier, unrelated backward pass (it must not leak into the new one)
+            pre = None
+            for t in tens.values():
+                pre = (t * t).sum() if pre is None else pre + (t * t).sum()
+            if pre is not None:
+                pre.backward()
         exec(spec["body"], env)
         out = env["out"]
         out_terms = terms_of(out.data)
@@ -183,6 +190,10 @@ def run(spec, tier, prop, mg, max_paths=400, max_seconds=120.0, timeout_ms=10000
             if spec.get("check_defined"):
                 _check_defined(res, spec, prop, p)
             leaves = [(n, arrs[n], grads[n]) for n in arrs]
+            if spec.get("pre_grads"):
+                # a leaf the program never touches legitimately keeps the gradient of the earlier pass (C07): no claim on it here
+                import re as _re
+                leaves = [l for l in leaves if _re.search(r"\b%s\b" % l[0], spec["body"])]
             r = vjp.check_grads(p, L, leaves, timeout_ms=timeout_ms)
             res["unsat"] += r["unsat"]
             res["sat"] += r["sat"]
